@@ -83,7 +83,7 @@ def gen_body(rng, depth, in_async=False):
         elif k < 0.71 and in_async:
             out += ["async with actx() as c:"] + _ind(gen_body(rng, depth + 1, True), 1) + ["async for it in agen():", "    await it"]
         elif k < 0.75:
-            out += ["fn = lambda a, b=2, *c, **d: (a, b, c, d)", "gen = (lambda: (yield))"]
+            out += ["fn = lambda a, b=2, *c, **d: (a, b, c, d)", "gen = (lambda: (yield))", "fn2 = lambda p=1, q='two', *, r=[3], s=None: p"]
         elif k < 0.79:
             out += ["try:", "    pass", "except* OSError as eg:", "    pass"]
         elif k < 0.83 and depth > 0:
